@@ -716,13 +716,45 @@ def gen_ops(tier, rng):
         for pt, wrap in ((t, lambda v: v), (T_ptr(t), lambda v: ['p', '*' + name(t), '0'] + v), (T_ANY, lambda v: v)):
             for x in (nil_v, empty):
                 add(ev_line([pt], ['eq'] + arg_tokens(wrap(x)), [[wrap(nil_v)], [wrap(empty)]]), 'wt')
-                # variadic mode with NON-tuple items: `In(1, 2)` on f(xs ...int) is expanded with reflect.Value.Len and panics at Resolve
-    # (ill-formed for the variadic position; observed and compared with the model, not demanded)
-    add(evv_line([], T_sl(T_int('int')), ['in', '2', 'c', 'v'] + arg_tokens(g.int_term(T_int('int'), 1)) + ['c', 'v'] + arg_tokens(g.int_term(T_int('int'), 2)),
-                 [([], [g.int_term(T_int('int'), 1)])]), 'x')
-    add(evv_line([], T_sl(T_STR), ['in', '1', 'c', 'e', 'any'], [([], [g.str_term(T_STR, 'a')])]), 'x')
-    add(evv_line([T_STR], T_sl(T_int('int')), ['in', '2', 't', '2', 'v'] + arg_tokens(g.str_term(T_STR, 'a')) + ['v'] + arg_tokens(g.int_term(T_int('int'), 1))
-                 + ['c', 'v'] + arg_tokens(g.int_term(T_int('int'), 2)), [([g.str_term(T_STR, 'a')], [g.int_term(T_int('int'), 1)])]), 'x')
+                # variadic mode with NON-tuple alternatives (expr.go:74-87 as repaired): a number / string / expression / nil is ONE argument,
+    # a slice or array at the variadic position is expanded into a whole argument list
+    IT = lambda v: g.int_term(T_int('int'), v)
+    ST = lambda v: g.str_term(T_STR, v)
+    sli = lambda vs: ['sl', '[]int', '0', str(len(vs))] + [tok for v in vs for tok in IT(v)]
+    cv = lambda term: ['c', 'v'] + arg_tokens(term)
+    vi = T_sl(T_int('int'))
+    add(evv_line([], vi, ['in', '2'] + cv(IT(1)) + cv(IT(2)), [([], [IT(1)]), ([], [IT(2)]), ([], [IT(3)]), ([], []), ([], [IT(1), IT(2)])]), 'wt')
+    add(evv_line([], T_sl(T_STR), ['in', '2', 'c', 'e', 'any'] + cv(ST('a')), [([], [ST('a')]), ([], [ST('b')]), ([], [])]), 'wt')
+    add(evv_line([T_STR], vi, ['in', '2'] + cv(ST('a')) + cv(ST('b')), [([ST('a')], []), ([ST('b')], [IT(1)]), ([ST('c')], [])]), 'wt')
+    add(evv_line([], vi, ['in', '3'] + cv(sli([1, 2])) + cv(sli([3])) + cv(sli([])), [([], [IT(1), IT(2)]), ([], [IT(3)]), ([], []), ([], [IT(2)])]), 'wt')
+    add(evv_line([], vi, ['in', '2'] + cv(['sl', '[]int', 'nil']) + cv(IT(7)), [([], []), ([], [IT(7)]), ([], [IT(8)])]), 'wt')
+    add(evv_line([], vi, ['in', '2'] + cv(['ar', '[2]int', '2'] + IT(1) + IT(2)) + cv(IT(2)), [([], [IT(1), IT(2)]), ([], [IT(2)])]), 'wt')
+    add(evv_line([T_STR], vi, ['in', '3', 't', '2', 'v'] + arg_tokens(ST('a')) + ['v'] + arg_tokens(IT(1)) + cv(ST('b')) + cv(sli([1])),
+                 [([ST('a')], [IT(1)]), ([ST('b')], []), ([ST('a')], [])]), 'x')
+    add(evv_line([T_STR, T_BOOL], vi, ['in', '1'] + cv(ST('a')), [([ST('a'), ['b', 'bool', '1']], [])]), 'x')      # two fixed parameters: "number of args"
+    add(evv_line([], T_sl(T_ANY), ['in', '2'] + cv(IT(1)) + cv(sli([1, 2])), [([], [IT(1)]), ([], [sli([1, 2])])]), 'x')
+    for _ in range(10 * scale):
+        et = rng.choice([T_int('int'), T_STR, T_flt('float64'), T_int('uint8')])
+        st_ = T_sl(et)
+        fixed = [rng.choice([T_STR, T_int('int')])] if rng.chance(1, 3) else []
+        k = 1 + rng.below(4)
+        expr = ['in', str(k)]
+        t0 = fixed[0] if fixed else et
+        pool = [rand_of(t0) for _ in range(3)]
+        epool = [rand_of(et) for _ in range(3)]
+        for _ in range(k):
+            m = rng.below(4)
+            if m < 2:
+                expr += cv(rng.choice(pool))
+            elif m < 3 and not fixed:
+                n = rng.below(3)
+                expr += cv(['sl', name(st_), '0', str(n)] + [tok for _ in range(n) for tok in rng.choice(epool)])
+            else:
+                expr += ['c', 'e', 'any']
+        inputs = []
+        for _ in range(3):
+            inputs.append(([rng.choice(pool)] if fixed else [], [rng.choice(epool if fixed else pool + epool) for _ in range(rng.below(3))]))
+        add(evv_line(fixed, st_, expr, inputs + inputs[:1]), 'wt')
     # executed only (the model answers `unmodelled`): the unsafe cast of a same-sized struct (value.go:51-57), nil for an array parameter
     add(ev_line([T_S1], ['eq'] + arg_tokens(['st', 'S2', '2'] + g.int_term(T_int('int'), 1) + g.str_term(T_STR, 'a')),
                 [[['st', 'S1', '2'] + g.int_term(T_int('int'), 1) + g.str_term(T_STR, 'a')]]), 'x')
